@@ -212,3 +212,38 @@ func TestEvalLambdaNode_EvalBool_SeparateState(t *testing.T) {
 		t.Fatalf("unexpected result: got: %T(%v), expected: %t", got, got, exp)
 	}
 }
+
+func TestEvalLambdaNode_CopyReset_SeparateState(t *testing.T) {
+	// l = lambda: count()
+	// l > 1 evaluated on two copies: each copy counts on its own.
+	se, err := stateful.NewExpression(&ast.BinaryNode{
+		Operator: ast.TokenGreater,
+		Left: &ast.LambdaNode{
+			Expression: &ast.FunctionNode{
+				Func: "count",
+			},
+		},
+		Right: &ast.NumberNode{
+			IsInt: true,
+			Int64: 1,
+		},
+	})
+	if err != nil {
+		t.Fatalf("Failed to compile expression: %v", err)
+	}
+
+	a, b := se.CopyReset(), se.CopyReset()
+	scope := stateful.NewScope()
+	for _, e := range []stateful.Expression{a, b} {
+		if result, err := e.EvalBool(scope); err != nil || result {
+			t.Errorf("unexpected first result of a copy: got %v %v, expected false", result, err)
+		}
+	}
+	if result, err := a.EvalBool(scope); err != nil || !result {
+		t.Errorf("unexpected second result: got %v %v, expected true", result, err)
+	}
+	a.Reset()
+	if result, err := a.EvalBool(scope); err != nil || result {
+		t.Errorf("unexpected result after Reset: got %v %v, expected false", result, err)
+	}
+}
